@@ -958,3 +958,13 @@ V("Ellipse matrix typed after the raw centre", "C03", CURVE, "        m = np.eye
 # ------------------------------------------------------------------------------------------------ the unit axis of rotation from the raw representative (E18.rot)
 V("rotation: unit axis from the raw homogeneous coordinates", "C08", TRANS, "    a = axis.normalized_array[:-1]\n", "    a = axis.array[:-1]\n", "E18.rot", "rotation", quick=True)
 V("twin: rotation axis through a local for the dehomogenised point", "C08", TRANS, "    a = axis.normalized_array[:-1]\n", "    direction = axis.normalized_array\n    a = direction[:-1]\n", "silent")
+
+
+# ------------------------------------------------------------------------------------------------ composition (E19.act, C06)
+_COMP = "        return TransformationCollection.from_array(matmul(transformation.array, self.array))"
+V("composition with the factors exchanged", "C06", TRANS, _COMP, "        return TransformationCollection.from_array(matmul(self.array, transformation.array))", "E19.act", "Tensor.__apply__", quick=True)
+V("composition normalised by its bottom-right entry", "C06", TRANS, _COMP,
+  "        result = matmul(transformation.array, self.array)\n        return TransformationCollection.from_array(result / result[..., -1:, -1:])", "E19.act", "Tensor.__apply__")
+V("twin: composition through a local", "C06", TRANS, _COMP, "        product = matmul(transformation.array, self.array)\n        return TransformationCollection.from_array(product)", "silent")
+V("twin: composition as the transposed product of the transposes", "C06", TRANS, _COMP,
+  "        product = matmul(self.array, transformation.array, transpose_a=True, transpose_b=True)\n        return TransformationCollection.from_array(np.swapaxes(product, -1, -2))", "silent")
